@@ -111,7 +111,9 @@ def sc_div(a, b):
             a, b = z3.ToReal(a), z3.ToReal(b)
         return a / b
     if b == 0:
-        raise Unsupported("division by a concrete zero (inf/NaN result) is not modelled")
+        # x/0 (inf or NaN in floats) is modelled as an arbitrary real, as SMT does for symbolic divisors: any
+        # postcondition that depends on it fails, which is conservative except for comparisons on NaN
+        return z3.FreshReal("div0")
     return Fraction(a) / Fraction(b)
 
 
